@@ -266,6 +266,24 @@ func earlierSameLoadD(ld *ssa.UnOp, depth int) *ssa.UnOp {
 		return nil
 	}
 	f := ld.Parent()
+	// the base is an object this function allocated and has not handed out yet at the load (no use of the
+	// pointer other than field accesses can run before the load): no callee can write its fields
+	unpublished := false
+	if al, ok := fa.X.(*ssa.Alloc); ok && al.Heap {
+		unpublished = true
+		for _, r := range *al.Referrers() {
+			if _, isFA := r.(*ssa.FieldAddr); isFA {
+				continue
+			}
+			if _, isDbg := r.(*ssa.DebugRef); isDbg {
+				continue
+			}
+			rb := r.Block()
+			if rb == ld.Block() || reachableFrom(rb, nil)[ld.Block()] {
+				unpublished = false
+			}
+		}
+	}
 	interferes := func(in ssa.Instruction) bool {
 		switch x := in.(type) {
 		case *ssa.Store:
@@ -288,9 +306,9 @@ func earlierSameLoadD(ld *ssa.UnOp, depth int) *ssa.UnOp {
 			return false
 		case *ssa.Call:
 			_, isBuiltin := x.Call.Value.(*ssa.Builtin)
-			return !isBuiltin
+			return !isBuiltin && !unpublished
 		case *ssa.Go, *ssa.Defer, *ssa.RunDefers:
-			return true
+			return !unpublished
 		}
 		return false
 	}
@@ -344,8 +362,14 @@ func earlierSameLoadD(ld *ssa.UnOp, depth int) *ssa.UnOp {
 			best = l1
 			return
 		}
+		// (b1 may lie in a cycle: the blocks examined below are then all those of the cycle that can run
+		// between an execution of the first load and the second one, a superset of the real paths)
 		if from1[b1] {
-			return // b1 in a cycle: keep it simple
+			for _, x := range b1.Instrs[:idx(b1, l1)] {
+				if interferes(x) {
+					return
+				}
+			}
 		}
 		for _, x := range b1.Instrs[idx(b1, l1):] {
 			if interferes(x) {
